@@ -59,6 +59,8 @@ type LogWrap struct {
 	Mismatch  string            // first Get(o) that disagreed with what Consume handed for o
 	delayNext int
 	delay     time.Duration
+	hangNext  int
+	hang      time.Duration
 }
 
 func (l *LogWrap) Close() error { return l.real.Close() }
@@ -77,7 +79,22 @@ func (l *LogWrap) Append(p *packet.Publish) error {
 		l.delayNext--
 		delay = l.delay
 	}
+	hang := time.Duration(0)
+	if l.hangNext > 0 {
+		l.hangNext--
+		hang = l.hang
+	}
 	l.mu.Unlock()
+	if hang > 0 {
+		// a peer that hangs and then gives up (disk error after a long stall, process killed
+		// while the call was pending): the append fails, late
+		time.Sleep(hang)
+		l.mu.Lock()
+		l.appends = append(l.appends, AppendRec{atomic.AddInt64(l.seq, 1), string(p.Topic), string(p.Payload), true})
+		l.mu.Unlock()
+		atomic.AddInt64(l.act, 1)
+		return errors.New("injected log append failure after a stall")
+	}
 	if delay > 0 {
 		time.Sleep(delay) // a slow disk / a busy peer: the append succeeds, late
 	}
@@ -142,6 +159,13 @@ func (l *LogWrap) ReadBackMismatch() string { l.mu.Lock(); defer l.mu.Unlock(); 
 func (l *LogWrap) DelayNext(k int, d time.Duration) {
 	l.mu.Lock()
 	l.delayNext, l.delay = k, d
+	l.mu.Unlock()
+}
+
+// HangNext makes the next k appends take d of real time and then fail.
+func (l *LogWrap) HangNext(k int, d time.Duration) {
+	l.mu.Lock()
+	l.hangNext, l.hang = k, d
 	l.mu.Unlock()
 }
 
